@@ -71,7 +71,7 @@ func genC17Pair(t *rapid.T) c17Pair {
 }
 
 var c17Kinds = []string{"unary_b", "unary_b", "unary_b", "unary_rand", "unary_rand", "error", "stream", "describe", "notfound_method", "bad_ct",
-	"html_landing", "html_describe", "html_404", "json_401", "health"}
+	"html_landing", "html_describe", "html_404", "json_401", "health", "req_unknown_coding", "req_undecodable"}
 
 func genC17(t *rapid.T) c17Case {
 	c := c17Case{Level: []int{-1, 0, 1, 1, 2, 2, 3, 3, 4, 4, 5, 7, 9, 11, 12, 22}[rapid.IntRange(0, 15).Draw(t, "level")]}
@@ -186,6 +186,13 @@ func c17Request(b c17Body) (method, path string, hdr hdrList, body []byte) {
 		return "POST", "/no_such_method", arrowHdr, lib.BuildRequest("no_such_method", lib.ScriptBatch("{}"), lib.ReqOpts{})
 	case "bad_ct":
 		return "POST", "/u_str", hdrList{{"Content-Type", "text/plain"}}, []byte("hello")
+	case "req_unknown_coding":
+		// a request body in a coding the server cannot undo: refused with 415
+		s := lib.UnaryScript{ID: "c17", Outcome: "value", Value: "x"}
+		return "POST", "/u_str", hdrList{{"Content-Type", lib.ArrowCT}, {"Content-Encoding", "br"}}, lib.BuildRequest("u_str", lib.ScriptBatch(s.JSON()), lib.ReqOpts{})
+	case "req_undecodable":
+		// a request body that is not what its Content-Encoding says: refused with 400
+		return "POST", "/u_str", hdrList{{"Content-Type", lib.ArrowCT}, {"Content-Encoding", "zstd"}}, []byte("this is not a zstd frame")
 	case "html_landing":
 		return "GET", "/", nil, nil
 	case "html_describe":
@@ -424,7 +431,7 @@ func runC17(c c17Case) (out lib.Outcome) {
 
 var propC17 = lib.Prop[c17Case]{
 	ID: "C17",
-	Rule: "header pairs from a grammar (tokens zstd/gzip/identity/br/deflate/*/x-foo/empty, random case, OWS, ;q= and other parameters incl. q=0, duplicates, 0-6 tokens, either header absent or empty) x SetCompressionLevel in {-1,0,1,2,3,4,5,7,9,11,12,22} (a level the server refuses leaves it at its default; one it accepts is judged like any other) x response bodies (unary binary 0 B-256 KiB [2 MiB thorough] compressible, pseudo-random text, RPC error, producer stream, describe, 404/415 Arrow errors, HTML landing/describe/404 pages, JSON 401, health JSON); every case also judges 6-12 further header pairs against a small fixed Arrow body and probes each codec on the custom header. " +
+	Rule: "header pairs from a grammar (tokens zstd/gzip/identity/br/deflate/*/x-foo/empty, random case, OWS, ;q= and other parameters incl. q=0, duplicates, 0-6 tokens, either header absent or empty) x SetCompressionLevel in {-1,0,1,2,3,4,5,7,9,11,12,22} (a level the server refuses leaves it at its default; one it accepts is judged like any other) x response bodies (unary binary 0 B-256 KiB [2 MiB thorough] compressible, pseudo-random text, RPC error, producer stream, describe, 404/415 Arrow errors, requests in an unknown or undecodable Content-Encoding, HTML landing/describe/404 pages, JSON 401, health JSON); every case also judges 6-12 further header pairs against a small fixed Arrow body and probes each codec on the custom header. " +
 		"Oracle: reference negotiate() written from the doc comment gives (codec, custom-header stamp); exactly that stamp and only on Arrow bodies; body decoded with the harness decoder equals the identity response of the same request; VGI-Supported-Encodings equals the probed set. " +
 		"Non-trivial: compression on, both headers with >=2 tokens, winning codec not first in the merged client order.",
 	Gen:          genC17,
